@@ -74,7 +74,7 @@ def cut_segment(trace, tid, dst):
                     cur = None
             if cur == tid:
                 out.write(line)
-            elif cur is None and '"id":"%s"' % tid in line:
+            elif '"id":"%s"' % tid in line:
                 out.write(line)      # traces without reset lines (one self-contained line per case)
 
 
